@@ -839,6 +839,12 @@ class Runner:
             ("for-value-step", lambda: pt.Seq(pt.For(pt.Pop(I(0)), c1(), I(1)).Do(pt.Pop(I(2))), pt.Approve())),
             ("sub-bare-return", sub_bare_return), ("sub-none-body", sub_none_body),
             ("assert-none", lambda: pt.Seq(pt.Assert(pt.Pop(I(1))), pt.Approve())),
+            ("wideratio-bytes-factor", lambda: pt.Return(pt.WideRatio([pt.Bytes("a"), I(2)], [I(1)]))),
+            ("wideratio-none-factor", lambda: pt.Return(pt.WideRatio([I(2), I(3)], [pt.Pop(I(1))]))),
+            ("nary-bytes-operand", lambda: pt.Return(pt.Add(I(1), I(2), pt.Bytes("a")))),
+            ("concat-uint-operand", lambda: pt.Seq(pt.Pop(pt.Concat(pt.Bytes("a"), I(1))), pt.Approve())),
+            ("store-wrong-type", lambda: pt.Seq(pt.ScratchVar(U).store(pt.Bytes("a")), pt.Approve())),
+            ("globalput-none", lambda: pt.Seq(pt.App.globalPut(pt.Bytes("k"), pt.Pop(I(1))), pt.Approve())),
             ("return-none-in-main", lambda: pt.Seq(pt.If(c1()).Then(pt.Return()), pt.Approve())),
         ]
         out = Counter()
